@@ -15,10 +15,13 @@ def classify (status : Option Nat) (fast : Bool) : Outcome :=
   | none => .nack                                       -- transport error
   | some code => if Extracted.pushSuccessCodes.contains code then .ack fast else .nack
 
-/-- window bounds and steps, read off the source (`pushReceiveLits`: 1000 1000 1000 1 1 1 1 10 1 1) -/
-def windowMax : Int := Extracted.pushReceiveLits.getD 0 0
-def windowMin : Int := Extracted.pushReceiveLits.getD 3 0
-def nackFactor : Int := Extracted.pushReceiveLits.getD 7 0
+/-- window bounds and steps, read off the source: `pushWindowConsts` are the distinct integer constants
+    of `httpPushStreamConn.Receive` and the helpers it calls, ascending — exactly three, the floor, the
+    nack factor and the ceiling (`C19.window_consts`); *how* the code uses them is what the
+    correspondence run of the window trajectory compares -/
+def windowMax : Int := Extracted.pushWindowConsts.getD 2 0
+def windowMin : Int := Extracted.pushWindowConsts.getD 0 0
+def nackFactor : Int := Extracted.pushWindowConsts.getD 1 0
 
 inductive Batch
   | fastAcks (n : Nat)
